@@ -20,8 +20,8 @@ LEVEL_TEXT = ('Deciding tier is bounded (labelled bounded, not proved): every op
               'A deductive core IS discharged for all strings (pyvc fragments of the real dotdict_base._resolve, cvc5 strings): one iteration of the `..` loop turns '
               'P.q..back into P.back for every parent path P, single segment q and remainder; the first-segment split returns (a, b) for a.b and .a.b.')
 LEVEL_NOTE = 'T9 fragments of _resolve only (bracketed segments, eval of index expressions, the mapping operations and iteration are bounded-only). Indexes beyond a list length are outside the checked domain (membership raises IndexError there on this tree).'
-TECHNIQUE = 'bounded exhaustive + seeded random operation sequences on the real dotdict against an independent nested-dict model; deductive fragment contracts (pyvc, cvc5 strings) on dotdict_base._resolve'
-TRUSTED = ['the nested-dict model in this file', 'lookup-form contracts: dotdict_base.__getitem__ by an assumed model (uninterpreted table over whole paths: value or KeyError); the built-in dict under super() a different table', 'T9 fragment contracts: the rest of _resolve (bracket balancing) is unverified', 'str.rfind of one character: exact last-occurrence characterisation']
+TECHNIQUE = 'bounded exhaustive + seeded random operation sequences on the real dotdict against an independent nested-dict model; deductive contracts (pyvc, z3 / cvc5 strings) on fragments of dotdict_base._resolve and on the whole methods __getattr__, __contains__, get, __setattr__ over assumed models of __getitem__ / __setitem__'
+TRUSTED = ['the nested-dict model in this file', 'lookup-form contracts: dotdict_base.__getitem__ by an assumed model (uninterpreted table over whole paths: value or KeyError); the built-in dict under super() a different table', 'store-form contract (__setattr__): dotdict_base.__setitem__ by an assumed model (records path and value; its resolution is not modelled)', 'T9 fragment contracts: the rest of _resolve (bracket balancing) is unverified', 'str.rfind of one character: exact last-occurrence characterisation']
 ASSUMPTIONS = ['keys over {a,b,c,l,m}, depth <= 3, list indexes in range']
 
 
@@ -608,5 +608,47 @@ def lookup_form_specs():
     return [ga, co, ge]
 
 
+def item_store(eng, recv, args, kw, st, n):
+    """ASSUMED model of dotdict_base.__setitem__ as a callee: it stores args[1] under the path args[0]; recorded in ghost fields of the receiver
+    (how many stores, and the last path and value), so that a caller's contract can say what it stored.  Its own resolution of the path is the subject of
+    the _resolve fragments and of the bounded tier."""
+    from pyvc.vals import IntV
+    from pyvc.pure import to_int
+    if len(args) != 2 or kw or not isinstance(args[0], SeqV):
+        raise Unsupported('__setitem__ with arguments %r %r' % (args, kw))
+    line = getattr(n, 'lineno', None)
+    for s1, _ in eng.obj_set(st, recv, '_g_nstores', IntV(to_int(st.heap[(recv.id, '_g_nstores')]) + 1), line):
+        for s2, _ in eng.obj_set(s1, recv, '_g_skey', args[0], line):
+            for s3, _ in eng.obj_set(s2, recv, '_g_sval', args[1], line):
+                yield s3, NONE_
+
+
+def replay_setattr(model, obligation):
+    import cpppo
+    for path, val in (('a', 1), ('a.b', 2), ('x.y.z', 3), ('l', [1, 2])):
+        d, e = cpppo.dotdict(), cpppo.dotdict()
+        try:
+            setattr(d, path, val)
+            got = dict(d.items())
+        except Exception as exc:
+            got = 'raised %s' % type(exc).__name__
+        e[path] = val
+        if got != dict(e.items()):
+            return dict(confirmed=True, function='cpppo.dotdict.__setattr__', input='setattr(d, %r, %r) on an empty dotdict' % (path, val), observed=repr(got),
+                        required='%r, what d[%r] = %r gives' % (dict(e.items()), path, val))
+    return dict(confirmed=False)
+
+
+def store_form_specs():
+    sa = Spec('dotdict_base.__setattr__', (F, 'dotdict_base.__setattr__'), params={'key': 'Str', 'value': 'Int'}, cls_name='dotdict_base',
+              fields={'_g_nstores': 'Int', '_g_skey': 'Str', '_g_sval': 'Int'},
+              ensures=[('the attribute form performs exactly one item store', 'self._g_nstores == old(self._g_nstores) + 1'),
+                       ('under the path given, of the value given', 'self._g_skey == key and self._g_sval == value')],
+              raises={}, modifies=['self._g_nstores', 'self._g_skey', 'self._g_sval'],
+              callees={'__setitem__': item_store, 'dotdict_base.__setitem__': item_store}, replay=replay_setattr,
+              note='whole method; __setitem__ by its assumed model (records the store in ghost fields _g_* of the receiver, which exist only in the contract)')
+    return [sa]
+
+
 def contracts(repo):
-    return resolve_fragments() + lookup_form_specs()
+    return resolve_fragments() + lookup_form_specs() + store_form_specs()
